@@ -169,6 +169,7 @@ class Encoder:
     self.objs: List[Any] = []  # keeps every encoded object alive (ids stay unique)
     self.in_progress = set()
     self.fns: Dict[str, Any] = {}
+    self.by_index: List[Any] = []  # object with number i
 
   # -- atoms
   def atom(self, v) -> Optional[str]:
@@ -228,7 +229,23 @@ class Encoder:
     self.nodes.append(term)
     self.kinds.append(kind)
     self.ids[id(v)] = idx
+    self.by_index.append(v)
     return idx
+
+  def reencode(self) -> "Encoder":
+    """A new encoder with the SAME numbering for the objects already numbered, describing their
+    current state (after an in-place edit); objects created since are appended."""
+    e2 = type(self)(self.intern, canonical=self.canonical)
+    e2.fns = dict(self.fns)
+    e2.ids = dict(self.ids)
+    e2.by_index = list(self.by_index)
+    e2.objs = list(self.objs)
+    e2.nodes = [None] * len(self.nodes)
+    e2.kinds = list(self.kinds)
+    for idx, obj in enumerate(self.by_index):
+      term, kind = e2._node_term(obj)
+      e2.nodes[idx] = term
+    return e2
 
   def _node_term(self, v):
     if isinstance(v, config_lib.Buildable):
